@@ -403,9 +403,14 @@ func VerifC12Limits() {
 	var stream []byte
 	switch verifParam("path") {
 	case "tcp":
-		line := verifLongLine(65535)
+		n := verifParamInt("len", 65535)
+		line := verifLongLine(n)
 		stream = append(append(append([]byte{}, line...), '\n'), 'b', '\n')
 		cutset := []int{0, 1, 4095, 4096, 4097, 65534, 65535, 65536}
+		if n != 65535 {
+			// a mid-size line: cuts around the scanner's initial buffer size, its first doubling and the line end
+			cutset = []int{0, 4096, 4097, 8192, n - 1, n, n + 1}
+		}
 		cut := cutset[verifChoice("cut", len(cutset))]
 		r := &verifCutReader{data: stream, cuts: []int{cut}, endErr: io.EOF}
 		err := NewPlain(d).Handle(r)
